@@ -57,9 +57,73 @@ class StageFilter:
         return r
 
 
+class CleanupMap:
+    """Where an injected failure would be one that no callee can produce, or one that no implementation is expected to
+    survive: the implicit `__exit__` call at the end of a `with` block (an exception raised on that line event is raised
+    BEFORE `__exit__` runs, like an asynchronous exception - the lock of a `with lock:` would stay held), and the bodies of
+    `except` / `finally` clauses and of `__exit__` / `__del__` methods (the code that restores state and releases resources).
+    A crash point that falls there, or in anything called from there, moves on to the next eligible event."""
+
+    def __init__(self):
+        self.file_lines = {}
+        self.exit_offsets = {}
+
+    def cleanup_lines(self, filename):
+        r = self.file_lines.get(filename)
+        if r is None:
+            r = set()
+            try:
+                import ast
+
+                with open(filename, encoding="utf-8") as fp:
+                    tree = ast.parse(fp.read())
+                for node in ast.walk(tree):
+                    if isinstance(node, (ast.Try, getattr(ast, "TryStar", ast.Try))):
+                        for h in node.handlers:
+                            r.update(range(h.lineno, (h.end_lineno or h.lineno) + 1))
+                        for st in node.finalbody:
+                            r.update(range(st.lineno, (st.end_lineno or st.lineno) + 1))
+                    elif isinstance(node, (ast.FunctionDef, ast.AsyncFunctionDef)) and node.name in ("__exit__", "__aexit__", "__del__"):
+                        r.update(range(node.lineno, (node.end_lineno or node.lineno) + 1))
+            except (OSError, SyntaxError, UnicodeDecodeError, ValueError):
+                pass
+            self.file_lines[filename] = r
+        return r
+
+    def with_exit_offsets(self, code):
+        e = self.exit_offsets.get(id(code))
+        if e is None:
+            import dis
+
+            ins = list(dis.get_instructions(code))
+            offs = set()
+            for i in range(len(ins) - 3):
+                a, b, c, d = ins[i:i + 4]
+                if (a.opname == b.opname == c.opname == "LOAD_CONST" and a.argval is None and b.argval is None and c.argval is None
+                        and d.opname.startswith("CALL")):
+                    offs.add(a.offset)
+            e = (offs, code)
+            self.exit_offsets[id(code)] = e
+        return e[0]
+
+    def eligible(self, frame, stage_filter):
+        """May a failure originate at this point of `frame`?"""
+        if frame.f_lasti in self.with_exit_offsets(frame.f_code):
+            return False
+        f = frame
+        while f is not None:
+            if stage_filter.is_stage(f.f_code) and f.f_code.co_filename != "<string>":
+                if f.f_lineno in self.cleanup_lines(f.f_code.co_filename):
+                    return False
+            f = f.f_back
+        return True
+
+
 class CrashTracer:
     """Counts line events and call events in stage frames; raises `exc` at the k-th line event (on="line") or on entry
     to the k-th stage call (on="call"). k=None: count only."""
+
+    cleanup = CleanupMap()
 
     def __init__(self, stage_filter, k=None, exc=InjectedFault, on="line"):
         self.sf = stage_filter
@@ -74,7 +138,7 @@ class CrashTracer:
     def __call__(self, frame, event, arg):  # global trace: 'call' events
         if self.sf.is_stage(frame.f_code):
             self.calls += 1
-            if self.on == "call" and self.k is not None and self.calls == self.k and not self.fired:
+            if self.on == "call" and self.k is not None and self.calls >= self.k and not self.fired and self.cleanup.eligible(frame, self.sf):
                 self.fired = True
                 self.where = (os.path.basename(frame.f_code.co_filename), frame.f_code.co_firstlineno)
                 raise self.exc("injected on entry to stage call %d (%s)" % (self.k, frame.f_code.co_name))
@@ -84,7 +148,7 @@ class CrashTracer:
     def local(self, frame, event, arg):
         if event == "line":
             self.n += 1
-            if self.on == "line" and self.k is not None and self.n == self.k and not self.fired:
+            if self.on == "line" and self.k is not None and self.n >= self.k and not self.fired and self.cleanup.eligible(frame, self.sf):
                 self.fired = True
                 self.where = (os.path.basename(frame.f_code.co_filename), frame.f_lineno)
                 raise self.exc("injected at stage line event %d" % self.k)
